@@ -223,6 +223,7 @@ func (m *Model) ruleREADCAS(r *Results) {
 			}
 		}
 	}
+	casReaders := map[*ssa.Function]int{} // helper -> index of the result that is the row's CAS
 	for _, sc := range m.scanCalls() {
 		fn := sc.Fn
 		if sc.Site == nil || sc.Dests == nil || fn.Parent() != nil || !loopReaders[fn] {
@@ -303,7 +304,63 @@ func (m *Model) ruleREADCAS(r *Results) {
 		if bad != "" {
 			pos = bad
 		}
+		if bad == "" {
+			casReaders[fn] = resIdx
+		}
 		r.check(bad == "", rule, m.declName(fn)+" / returns the row's CAS whenever a row was read", pos, "every return after a successful scan returns the scanned CAS", "a return that follows a successful scan of the row does not return the row's CAS (e.g. 0 for a tombstone): the read-modify-write loops built on this helper then write back with a CAS that does not identify the version they read")
+	}
+	// wrappers: a reader of the loops that hands on the CAS of such a helper hands it on from every
+	// return behind the call - the helper reports a tombstone as "missing" WITH its CAS, and a
+	// wrapper that answers 0 whenever there is an error takes that away again
+	for round := 0; round < 3; round++ {
+		for w := range loopReaders {
+			if _, done := casReaders[w]; done || w.Parent() != nil || w.Blocks == nil {
+				continue
+			}
+			m.eachCall(w, func(c ssa.CallInstruction) {
+				h := c.Common().StaticCallee()
+				idx, ok := casReaders[h]
+				if !ok || c.Value() == nil || c.Value().Referrers() == nil {
+					return
+				}
+				var ex ssa.Value
+				for _, ref := range *c.Value().Referrers() {
+					if e, ok := ref.(*ssa.Extract); ok && e.Index == idx {
+						ex = e
+					}
+				}
+				if ex == nil {
+					return
+				}
+				wIdx := -1
+				for _, ret := range returnsOf(w) {
+					for j, rv := range ret.Results {
+						if stripConv(rv) == ex {
+							wIdx = j
+						}
+					}
+				}
+				if wIdx < 0 {
+					return
+				}
+				reach := reachableFromSuccs(c.Block(), newCut())
+				reach[c.Block().Index] = true
+				bad := ""
+				for _, ret := range returnsOf(w) {
+					if reach[ret.Block().Index] && stripConv(ret.Results[wIdx]) != ex {
+						bad = m.instrPos(ret)
+					}
+				}
+				pos := m.instrPos(c)
+				if bad != "" {
+					pos = bad
+				} else {
+					casReaders[w] = wIdx
+				}
+				n++
+				r.check(bad == "", rule, m.declName(w)+" / hands on the CAS "+h.Name()+" read", pos, "every return behind the call returns the helper's CAS result", "a return behind the call of "+h.Name()+" does not hand on the CAS it read (e.g. `return 0, err`): for a tombstone the helper reports 'missing' together with the tombstone's CAS, which a CAS-guarded sub-document write or update on a deleted document needs in order to be honoured")
+			})
+		}
 	}
 	r.floor(rule, 1)
 }
@@ -969,6 +1026,103 @@ func (m *Model) ruleXATTRVALIDATE(r *Results) {
 			r.check(bad == "" && before, rule, key, pos, "decoding depends only on the value itself and precedes the transaction", "whether a supplied xattr value is decoded (validated) depends on something other than the value (an option, at "+bad+"), or happens after the transaction began: an invalid value can reach the transaction, where the re-encoding error is discarded and the row's xattrs are stored as NULL while the write reports success")
 		}
 	}
+	// removing an xattr that is not there fails, whatever else the write does: in a loop over the
+	// requested changes, the "not found" edge of the lookup whose "found" edge deletes the entry
+	// reaches neither the next iteration nor a return that can report success
+	nr := 0
+	for _, fn := range m.Funcs {
+		if !m.inPkg(fn) {
+			continue
+		}
+		for _, b := range fn.Blocks {
+			for _, ins := range b.Instrs {
+				lk, ok := ins.(*ssa.Lookup)
+				if !ok || !lk.CommaOk || lk.Referrers() == nil {
+					continue
+				}
+				// the key is the key of an enclosing range loop (here, or in the caller that hands it
+				// to this helper)
+				isRangeKey := func(v ssa.Value) (*ssa.Extract, bool) {
+					kx, ok := stripConv(v).(*ssa.Extract)
+					if !ok {
+						return nil, false
+					}
+					_, isNext := kx.Tuple.(*ssa.Next)
+					return kx, isNext
+				}
+				kx, ok := isRangeKey(lk.Index)
+				if !ok {
+					if p, isP := stripConv(lk.Index).(*ssa.Parameter); isP {
+						for i, q := range fn.Params {
+							if q != p {
+								continue
+							}
+							for _, cl := range m.staticCallersOf(fn) {
+								if i < len(cl.Common().Args) {
+									if _, isK := isRangeKey(cl.Common().Args[i]); isK {
+										ok = true
+									}
+								}
+							}
+						}
+					}
+					if !ok {
+						continue
+					}
+					kx = nil
+				}
+				for _, ref := range *lk.Referrers() {
+					ex, ok := ref.(*ssa.Extract)
+					if !ok || ex.Index != 1 || ex.Referrers() == nil {
+						continue
+					}
+					for _, r2 := range *ex.Referrers() {
+						iff, ok := r2.(*ssa.If)
+						if !ok {
+							continue
+						}
+						cd := condOf(iff)
+						foundSucc, missSucc := cd.succWhen(true), cd.succWhen(false)
+						deletes := false
+						for _, in2 := range foundSucc.Instrs {
+							if c, ok := in2.(*ssa.Call); ok {
+								if bi, ok := c.Common().Value.(*ssa.Builtin); ok && bi.Name() == "delete" && len(c.Common().Args) == 2 && sameMapValue(c.Common().Args[0], lk.X) {
+									deletes = true
+								}
+							}
+						}
+						if !deletes {
+							continue
+						}
+						nr++
+						bad := ""
+						reach := reachableFrom(missSucc, newCut())
+						for _, b2 := range fn.Blocks {
+							if !reach[b2.Index] {
+								continue
+							}
+							for _, in2 := range b2.Instrs {
+								switch y := in2.(type) {
+								case *ssa.Next:
+									if kx != nil && y == kx.Tuple {
+										bad = "the next iteration"
+									}
+								case *ssa.Return:
+									if bad == "" && !m.mustBeFailureReturn(y) {
+										bad = "a return that can report success (" + m.instrPos(y) + ")"
+									}
+								}
+							}
+						}
+						r.check(bad == "", rule, m.declName(fn)+" / removing an entry that is not there fails", m.instrPos(iff), "from the not-found edge only failing returns are reachable", "when the entry to be removed is not there the loop can go on to "+bad+": the rest of the write is applied and reported as a success although part of what was asked for could not be done (a combined write is all-or-nothing)")
+					}
+				}
+			}
+		}
+	}
+	if nr < 1 {
+		r.undecided(rule, "removal loop", "-", "no loop that removes requested entries after looking them up was found")
+	}
 	r.floor(rule, 1)
 	_ = n
 }
@@ -1106,6 +1260,62 @@ func (m *Model) ruleERRDROPPED(r *Results) {
 			}
 		}
 	}
+	// a pointer that came back together with an error is not wrapped into an interface result on
+	// the branch where that error was found non-nil: the caller's `!= nil` test passes on the typed
+	// nil and the first method call panics
+	for _, fn := range m.Funcs {
+		if !m.inPkg(fn) || fn.Blocks == nil {
+			continue
+		}
+		for _, ret := range returnsOf(fn) {
+			for j, rv := range ret.Results {
+				mi, ok := rv.(*ssa.MakeInterface)
+				if !ok || isErrorType(fn.Signature.Results().At(j).Type()) {
+					continue
+				}
+				if _, isPtr := mi.X.Type().Underlying().(*types.Pointer); !isPtr {
+					continue
+				}
+				ex, ok := mi.X.(*ssa.Extract)
+				if !ok {
+					continue
+				}
+				call, ok := ex.Tuple.(*ssa.Call)
+				if !ok {
+					continue
+				}
+				errV := writeErrValue(call)
+				if errV == nil {
+					continue
+				}
+				c := newCut()
+				for _, iff := range allIfs(fn) {
+					cd := condOf(iff)
+					eq, ok := cd.equalEdge()
+					if !ok || !(isNilConst(cd.X) || isNilConst(cd.Y)) {
+						continue
+					}
+					other := cd.X
+					if isNilConst(cd.X) {
+						other = cd.Y
+					}
+					if stripConv(other) == errV {
+						c.cutEdge(iff.Block(), eq)
+					}
+				}
+				if len(c.edges) == 0 {
+					continue // the error is never looked at: nothing to contradict
+				}
+				n++
+				okR := !reachableFromSuccs(call.Block(), c)[ret.Block().Index]
+				name := "?"
+				if f := call.Common().StaticCallee(); f != nil {
+					name = f.Name()
+				}
+				r.check(okR, rule, m.declName(fn)+" / result of "+name+" is handed out as an interface only when its error is nil", m.instrPos(ret), "the return is reachable only through the branch on which the error was nil", "the pointer returned by "+name+" is converted to an interface result on a path where its error was found non-nil (the error branch falls through): the caller receives a non-nil interface holding a nil pointer, its nil test passes and the first method call panics")
+			}
+		}
+	}
 	if n == 0 {
 		r.info(rule, "instances", "-", "no error value is only compared with nil")
 	}
@@ -1137,4 +1347,15 @@ func (m *Model) ruleNILROW(r *Results) {
 	if n == 0 {
 		r.info(rule, "instances", "-", "no direct (*sql.Row).Scan outside the scan helper")
 	}
+}
+
+// sameMapValue: the same SSA value, or two loads of the same variable.
+func sameMapValue(a, b ssa.Value) bool {
+	a, b = stripConv(a), stripConv(b)
+	if a == b {
+		return true
+	}
+	la, ok1 := a.(*ssa.UnOp)
+	lb, ok2 := b.(*ssa.UnOp)
+	return ok1 && ok2 && la.Op == token.MUL && lb.Op == token.MUL && la.X == lb.X
 }
